@@ -102,9 +102,11 @@ def purity(rep):
     """two threads encoding / decoding at the same time, both doing the first TBCD call of their process"""
     from engine import concur
     pairs = [("first encode of the process in both threads", _tbcd_job(["5511987654321", "98", "7"]), _tbcd_job(["31", "5599", "123456789012345"])),
+             ("the same numbers in both threads, after another one", _tbcd_job(["49111", "551299032876", "42"]), _tbcd_job(["551299032876", "42", "49111"])),
              ("odd and even lengths", _tbcd_job(["12345"]), _tbcd_job(["123456", "0"]))]
-    return concur.purity_stage(rep, "the TBCD functions", pairs[:1 if rep.tier == "quick" else 2],
-                               ("/bromelia/utils.py", "/bromelia/avps/etsi_3gpp/ts_129_329.py", "/bromelia/avps/etsi_3gpp/ts_129_272.py"), kmax=400)
+    return concur.purity_stage(rep, "the TBCD functions", pairs[:2 if rep.tier == "quick" else 3],
+                               ("/bromelia/utils.py", "/bromelia/avps/etsi_3gpp/ts_129_329.py", "/bromelia/avps/etsi_3gpp/ts_129_272.py"), kmax=240,
+                               stride=3 if rep.tier == "quick" else 1)
 
 
 def run(rep):
@@ -130,6 +132,30 @@ def run(rep):
             rep.sample({"digits": "".join(map(str, vecs[0]["d"])), "tbcd": _hex(vecs[0]["e"])})
     rep.exhaustive = True
     rep.notes["max_exhaustive_length"] = maxlen
+    # the functions keep no memory: decodes of TBCD strings outside the encoder's image (a filler nibble in the first octet, the
+    # special symbols) and encodes of strings with special symbols first, then a sample of the vectors again
+    if len(rep.violations) < 50:
+        for vecs, _res in chunks:
+            for v in vecs[::7][:120]:
+                ds = "".join(map(str, v["d"]))
+                eh = _hex(v["e"])
+                for odd in (eh[:1] + "f" + eh[2:] if len(eh) >= 2 else eh, "f" + eh[1:], eh[::-1]):
+                    _call(api["dec"], odd)
+                for sp in ("*" + ds[1:], ds[:-1] + "#", "0" + ds):
+                    _call(api["enc"], sp)
+        n2 = 0
+        for vecs, _res in chunks:
+            for v in vecs[::61]:
+                rep.case(("again",) + tuple(v["d"]))
+                n2 += 1
+                before = len(rep.violations)
+                compare_vector(rep, v["d"], v["e"], api)
+                if len(rep.violations) > before:
+                    rep.violations[-1]["what"] = "after decodes / encodes of strings outside the digit-string image: " + rep.violations[-1]["what"]
+                    break
+            if len(rep.violations) >= 50:
+                break
+        rep.notes["vectors_rechecked_after_foreign_inputs"] = n2
 
     # ---- T: records from the real code, validated by TLC
     rng = random.Random(rep.seed * 7919 + 18)
